@@ -118,6 +118,12 @@ func newLogin(px *proxy.Proxy, name string) *proxy.VerifLogin {
 		false, version.Minecraft_1_20_2.Protocol)
 }
 
+// dupLogin is another connection claiming the identity of element k.
+func dupLogin(px *proxy.Proxy, k string) *proxy.VerifLogin {
+	return proxy.VerifNewLogin(px, newNullConn("dup-"+k), &profile.GameProfile{ID: idOf(k), Name: "P" + k},
+		false, version.Minecraft_1_20_2.Protocol)
+}
+
 func serverInfo(name string, i int) proxy.ServerInfo {
 	return proxy.NewServerInfo(name, &net.TCPAddr{IP: net.IPv4(127, 0, 0, 1), Port: 30000 + i})
 }
@@ -231,21 +237,29 @@ func (r *runner) run(n int, s schedule) {
 			r.tw.Emit(tracefmt.Rec{"ev": "w.call", "t": w, "op": op.Op, "k": op.K})
 			switch coll {
 			case "players":
-				if op.Op == "add" {
+				switch op.Op {
+				case "add":
 					logins[op.K].Activate()
-				} else {
+				case "del":
 					_ = logins[op.K].Close()
+				case "dup":
+					// a second connection with the same UUID and name: refused and torn down
+					dupLogin(px, op.K).Activate()
 				}
 			case "servers":
-				if op.Op == "add" {
+				switch op.Op {
+				case "add":
 					_, _ = px.Register(infos[op.K])
-				} else {
+				case "del":
 					px.Unregister(infos[op.K])
+				case "dup":
+					_, _ = px.Register(serverInfo(op.K, 50)) // same name: ErrServerAlreadyExists
 				}
 			case "sp":
-				if op.Op == "add" {
+				switch op.Op {
+				case "add", "dup":
 					proxy.VerifServerPlayersAdd(rs, logins[op.K].Player())
-				} else {
+				case "del":
 					proxy.VerifServerPlayersRemove(rs, logins[op.K].Player())
 				}
 			}
@@ -456,6 +470,17 @@ func TestRace(t *testing.T) {
 				}
 			}()
 		}
+		// somebody keeps trying to join under the first player's identity (refused while that
+		// player is online)
+		wg.Add(1)
+		go func() {
+			defer wg.Done()
+			for j := 0; j < 4; j++ {
+				dupLogin(px, "pa").Activate()
+				count("dup-join")
+				runtime.Gosched()
+			}
+		}()
 		// servers come and go
 		wg.Add(1)
 		go func() {
